@@ -305,6 +305,7 @@ class NeoxEnv:
                         for i in self.local}}
         self.records.append(init)
         self.cur_it = 0
+        self.has_factors = False
         if inc > 0:
             self.phase = 'restore'
             self._restore()
@@ -369,6 +370,8 @@ class NeoxEnv:
                 raise
         rec['load_warnings'] = [str(w.message) for w in wl]
         rec['compute_inverses'] = ci
+        self.has_factors = not (rop.get('wipe_dir')
+                                and self.plan['kfac'].get('ckpt_dir'))
         # every factor worker holds exactly the saved factors of its layers
         saved_layers = torch.load(io.BytesIO(ck['kfac']),
                                   weights_only=False).get('layers')
@@ -458,6 +461,7 @@ class NeoxEnv:
         rec['steps_after'] = pre.steps
         rec['hp_calls'] = {k: list(v.calls) for k, v in self.hp_objs.items()}
         rec['G'] = self._shards()
+        self.has_factors = True
         for i, m in self.local.items():
             if _bytes(m.weight) != rec['weights_before'][str(i)]:
                 self.bad('C10.param_changed_by_step', layer=i)
@@ -505,6 +509,12 @@ class NeoxEnv:
         return out
 
     def op_save(self, op: dict[str, Any], rec: dict[str, Any]) -> None:
+        if not self.has_factors:
+            # GPT-NeoX state_dict() asserts that factors exist; a checkpoint
+            # before the first factor update is outside the domain (DESIGN 0)
+            self.sim.probe('save_skipped_no_factors_yet')
+            rec['skipped'] = True
+            return
         st = self._read_state()
         sd = st.pop('_sd')
         rec['state'] = st
